@@ -51,6 +51,7 @@ PROPERTIES
   Act_C08_OneOutcome
   Act_C08_RespondGuards
   Act_C08_OneShot
+  Act_C08_CallFresh
   Act_C08_Schedule_ModF21
   Act_C08_Authority
   Act_C08_Callback
